@@ -67,8 +67,6 @@ def gen_case(rng, n_ops, faults=False, crashes=False):
         rd = ischan and su in readers
         if ischan:
             asx = ""
-            if rd and k >= 82 and k < 96:
-                k = rng.choice([10, 25, 40, 55, 65, 75, 95])     # a reader sticks to sub/leave/pub/note/get/setsub(self)/deltopic
         ta = ("chn:" + t) if (ischan and (rd != rng.chance(1, 20))) else t
         if (ntop == 0 and not p2p) or k < 4:
             if ntop >= 3:
@@ -121,7 +119,7 @@ def gen_case(rng, n_ops, faults=False, crashes=False):
             if rng.chance(5, 6):
                 o += f" mode={pick_mode(rng)}"
         elif k < 86:
-            o = f"setdesc {s} {t}"
+            o = f"setdesc {s} {ta if not p2p else t}"
             if rng.chance(1, 3):
                 o += f" auth={pick_mode(rng)}"
             if rng.chance(1, 4):
@@ -136,9 +134,9 @@ def gen_case(rng, n_ops, faults=False, crashes=False):
                 lo = rng.below(8)
                 hi = rng.choice([0, lo, lo + 1, lo + 2, lo + 4, 100, lo - 1])
                 rs.append(f"{lo}:{hi}")
-            o = f"delmsg {s} {t} {','.join(rs)}" + (" hard=1" if rng.chance(1, 2) else "")
+            o = f"delmsg {s} {ta if not p2p else t} {','.join(rs)}" + (" hard=1" if rng.chance(1, 2) else "")
         elif k < 95:
-            o = f"delsub {s} {t} {rng.choice(users)}"
+            o = f"delsub {s} {ta if not p2p else t} {rng.choice(users)}"
         elif k < 96:
             o = f"deltopic {s} {ta if not p2p else t}" + (" hard=1" if rng.chance(1, 2) else "")
         elif k < 97:
@@ -535,14 +533,16 @@ WORLD_TRUSTED = [
     "world stream: the Go harness drives the real Session.dispatch, Hub and Topic handlers one request at a time over an in-memory "
     "store adapter (harness/overlay/main/verif_memadapter_test.go) written from the MySQL adapter's statements; the adapter is part "
     "of the trusted base, the goroutine scheduling of the real server is replaced by a deterministic pump",
-    "Model/World.lean, TopicGrp.lean, TopicOps.lean, TopicReq.lean (group topics) and TopicP2P.lean (peer-to-peer topics) are a hand "
+    "Model/World.lean, TopicGrp.lean, TopicOps.lean, TopicReq.lean (group topics), TopicChan.lean (channels) and TopicP2P.lean (peer-to-peer topics) are a hand "
     "transcription of the handlers; they are tied to the code only by the differential run (same requests, byte-identical replies, "
     "traffic, adapter calls and state digests)",
     "history monitors (vlib/worldmon.py) decide the property on the implementation's own output when the tie is broken",
 ]
 WORLD_ASSUMPTIONS = [
-    "group and peer-to-peer topics (no channels, me/fnd/sys; presence routed through users' `me` topics is not observed), one server "
-    "node, requests processed one at a time in arrival order; on-behalf-of (root `as=`) requests are exercised on group topics only",
+    "group, channel-enabled and peer-to-peer topics (no me/fnd/sys; presence routed through users' `me` topics is not observed), one "
+    "server node, requests processed one at a time in arrival order; on-behalf-of (root `as=`) requests are exercised on plain group "
+    "topics only; on a channel-enabled topic two users come as readers (`chn` spelling) and two as subscribers, a reader does not issue "
+    "{set desc}, {del msg} or {del sub}",
     "accounts carry the default access the server stores for an account (within JRWPAS / JRWPA, with A unless N: user.go:97-117)",
     "at most one injected store failure or crash point per request",
 ]
